@@ -32,7 +32,7 @@ Definition next_ok (rest : list node) : bool :=
    group_as / group_comparison accept `is_keyword and normalized == 'NULL'` as left operand;
    is_keyword is the prefix test, true of a Keyword.DML leaf) *)
 Definition kw_ok (kw : text) : bool :=
-  negb (text_eqb (upper kw) s_AS) && negb (text_eqb (upper kw) s_NULL).
+  negb (text_eqb (knorm kw) s_AS) && negb (text_eqb (knorm kw) s_NULL).
 
 (* GUARD 3: at most one `:=` among the statement's tokens (group_assignment groups up to a far-away
    `;` and then walks the rest of its snapshot with stale indices: a second `:=` can then group
